@@ -378,6 +378,10 @@ def run(tier):
     import x11_notify
     if x11_notify.enabled():
         x11_notify.run_part(ck, tier)
+    # extension X24: the stock handlers mpt_dispatch_param registers (checks/x24_params.py, docs/X24_params.md)
+    import x24_params
+    if x24_params.enabled():
+        x24_params.run_part(ck, tier)
     return ck.finish()
 
 
@@ -387,6 +391,9 @@ def replay(path):
     if det.get("part") == "x11_notify":
         import x11_notify
         return x11_notify.replay(det, path)
+    if det.get("part") == "x24_params":
+        import x24_params
+        return x24_params.replay(det, path)
     beh = det.get("behaviour")
     if not beh:
         print(json.dumps(det, indent=1)[:4000])
